@@ -17,7 +17,11 @@ def modelled : List String := [
   "poseidon.HashWithState",
   "poseidon.HashWithStateEx",
   "utils.CheckBigIntArrayInField",
-  "utils.CheckBigIntInField"
+  "utils.CheckBigIntInField",
+  "mimc7.<decls>@mimc7.go",
+  "poseidon.<decls>@constants.go",
+  "poseidon.<decls>@poseidon.go",
+  "utils.<decls>@utils.go"
 ]
 
 theorem source_pinned : modelled.all (same I3.Gen.fingerprints) = true := by decide +kernel
@@ -25,6 +29,6 @@ theorem source_pinned : modelled.all (same I3.Gen.fingerprints) = true := by dec
 theorem function_set_pinned : (["mimc7.", "poseidon.", "utils."] : List String).all (sameKeys I3.Gen.fingerprints) = true := by
   decide +kernel
 
-theorem modelled_nonempty : 9 = modelled.length := by decide
+theorem modelled_nonempty : 13 = modelled.length := by decide
 
 end I3.Props.C07
